@@ -186,6 +186,15 @@ func (cl *Loader) load(file string) (config map[string]interface{}, err error) {
 				return nil, fmt.Errorf("load import error: %v", err)
 			}
 
+			// nested YAML maps are map[interface{}]interface{}, JSON and TOML give map[string]interface{}:
+			// merge one representation, so that files of different formats can import each other
+			for k, v := range config {
+				config[k] = stringKeyed(v)
+			}
+			for k, v := range raw {
+				raw[k] = stringKeyed(v)
+			}
+
 			err = mergo.Merge(&config, raw, mergo.WithOverride, mergo.WithAppendSlice, mergo.WithTypeCheck)
 			if err != nil {
 				return nil, err
@@ -194,6 +203,23 @@ func (cl *Loader) load(file string) (config map[string]interface{}, err error) {
 	}
 
 	return config, nil
+}
+
+// stringKeyed converts the maps of a decoded YAML value to map[string]interface{}
+func stringKeyed(v interface{}) interface{} {
+	switch x := v.(type) {
+	case map[interface{}]interface{}:
+		m := make(map[string]interface{}, len(x))
+		for k, e := range x {
+			m[fmt.Sprint(k)] = stringKeyed(e)
+		}
+		return m
+	case []interface{}:
+		for i, e := range x {
+			x[i] = stringKeyed(e)
+		}
+	}
+	return v
 }
 
 func (cl *Loader) loadDir(dir string) (map[string]interface{}, error) {
